@@ -110,6 +110,11 @@ class IfWriteHandler(AbstractWriteHandler):
             ), f"Invalid if-structure for if {m.if_id}"
 
             if v_after_if_branch is None:
+                if else_ends_on_common_vtx and else_edge is not None:
+                    # No else block was written, because the else edge leads directly to the end label of this if:
+                    # when the if-branch did not arrive there (it ended on a jump or an end op), that label still is
+                    # where control goes when the condition does not apply.
+                    return else_edge.target_vertex
                 return v_after_else_branch
             return v_after_if_branch
 
